@@ -9,6 +9,7 @@ pub mod c13;
 pub mod c14;
 pub mod c15;
 pub mod c17;
+pub mod c18;
 pub mod c19;
 
 pub type ReplayResult = Result<Vec<String>, (Vec<String>, String, String)>;
@@ -22,6 +23,7 @@ pub fn run(prop: &str, opts: &Opts) -> Vec<Report> {
         "C14" => c14::run(opts),
         "C15" => c15::run(opts),
         "C17" => c17::run(opts),
+        "C18" => c18::run(opts),
         "C19" => c19::run(opts),
         _ => crate::explore::machinery(&format!("unknown property {}", prop)),
     }
@@ -36,6 +38,7 @@ pub fn replay(prop: &str, case: &Value) -> ReplayResult {
         "C14" => c14::replay(case),
         "C15" => c15::replay(case),
         "C17" => c17::replay(case),
+        "C18" => c18::replay(case),
         "C19" => c19::replay(case),
         _ => crate::explore::machinery(&format!("unknown property {}", prop)),
     }
